@@ -117,22 +117,25 @@ ListVariant(E0, X0, lsub, canon, ctag, D) ==
       Strip(n) == IF lead /\ n[1] = SEP THEN Tail(n) ELSE n
       E    == {Strip(n) : n \in E0}
       X    == {Strip(n) : n \in X0}
-      root == IF lead /\ (\E n \in E0 : n[1] = SEP) THEN {<<>>} ELSE {}
-      impl == (Implied(E) \cup root) \ E
+      \* the level above "/a" is the root, whose name is empty: a server may
+      \* list it (\Noselect); the deviation lists it like any other level
+      root == IF \E n \in E0 : n[1] = SEP THEN {<<>>} ELSE {}
+      impl == (Implied(E) \cup (IF lead THEN root ELSE {})) \ E
       M(n) == MatchX(canon, n, D)
       ex   == {n \in E : M(n)}
       imp  == {n \in impl : M(n)}
+      optr == IF lead THEN {} ELSE {n \in root : M(n)}
       pend == canon[Len(canon)] = "%"
       \* INBOX: returned case-insensitively / always subscribed: optional
       inb  == IF MatchX(Fold(canon), Inbox, D) /\ Inbox \notin ex
               THEN {Inbox} ELSE {}
       G(S) == {Garble(n, D) : n \in S}
       must == G(ex \cup (IF pend THEN imp ELSE {}))
-      may  == G(imp \cup inb)
+      may  == G(imp \cup inb \cup optr)
   IN R0(TRUE, ctag, D) @@
      [one |-> FALSE, must |-> must, may |-> may, exact |-> must \cup may,
       sel   |-> G((IF lsub THEN E \cap X ELSE E) \cap (ex \cup inb)),
-      nosel |-> G((impl \ (IF lsub THEN {Inbox} ELSE X)) \cap imp)]
+      nosel |-> G(((impl \ (IF lsub THEN {Inbox} ELSE X)) \cap imp) \cup optr)]
 
 HasTok(S, tok) == \E n \in S : tok \in Range(n)
 
@@ -217,8 +220,7 @@ CreateAsIs(a) ==
 
 DeleteOutcomes(a) ==
   LET n == Norm(a) IN
-  IF n = Inbox THEN {No({})}
-  ELSE IF n \notin DOMAIN mbx THEN {Same(R0(TRUE, {}, {}))}
+  IF n = Inbox \/ n \notin DOMAIN mbx THEN {No({})}
   ELSE {Out([R0(TRUE, {}, {}) EXCEPT !.gone = {n}],
             [x \in DOMAIN mbx \ {n} |-> mbx[x]], sub)}
 
